@@ -1,5 +1,6 @@
 import Anysystem.Props.C05
 import Anysystem.Proofs.SimRunThms
+import Anysystem.Proofs.SimDelivery
 #print axioms Anysystem.instLawfulTimeTicks
 #print axioms Anysystem.Sim.send_same_node
 #print axioms Anysystem.Sim.send_cut_dropped
@@ -22,3 +23,10 @@ import Anysystem.Proofs.SimRunThms
 #print axioms Anysystem.Sim.TraceOrigin.crashNode
 #print axioms Anysystem.Sim.TraceOrigin.recoverNode
 #print axioms Anysystem.Sim.received_intact_no_corruption
+#print axioms Anysystem.Sim.ExactFate.init
+#print axioms Anysystem.Sim.ExactFate.sendMessage
+#print axioms Anysystem.Sim.ExactFate.step
+#print axioms Anysystem.Sim.ExactFate.steps
+#print axioms Anysystem.Sim.ExactFate.sendLocal
+#print axioms Anysystem.Sim.every_send_has_one_fate
+#print axioms Anysystem.Sim.delivered_once_if_not_dropped
